@@ -66,8 +66,8 @@ ASSUMPTIONS = [
     "cross-Deferred interleaving of invocations is not compared (the statement orders callbacks per "
     "Deferred); pause counters are used for state merging only, not for the verdict",
 ]
-MIN = {"quick": {"states": 157000, "nontrivial": 145000, "outcomes": 21, "transitions": 1715000},
-       "thorough": {"states": 550000, "nontrivial": 500000, "outcomes": 13, "transitions": 10000000}}
+MIN = {"quick": {"states": 157000, "nontrivial": 145000, "outcomes": 22, "transitions": 1715000},
+       "thorough": {"states": 895000, "nontrivial": 847000, "outcomes": 22, "transitions": 18790000}}
 LEVEL_TEXT = ("every operation history within the bound is executed on real twisted.internet.defer.Deferred "
               "objects and compared, step by step, with an independent recursive interpreter; no sampling")
 LEVEL_NOTE = ("re-entrancy limited to one addCallback/addBoth per callback from inside it (own or other Deferred; "
